@@ -98,8 +98,14 @@ static void prop_cycle(Tape &t, Ctx &c) {
     }
 
     // ---- symmetry / positivity (contraction is computed here and asserted last, see below)
-    bool fagg_region = cfg.coars == AGG && cfg.effective_over_interp() > 1.0 && cfg.ncycle == 1 && li.levels >= 3;
-    double rho = -1;
+    // Known finding F-agg: plain aggregation divides the Galerkin operator by over_interp = a (default 1.5).  With an
+    // exact coarsest solve a V-cycle then over-corrects the smooth error components by a^(levels-1): the cycle is a
+    // contraction (by induction over the levels, in the A-norm) as long as a^(levels-1) < 2, and beyond that the factor
+    // |1 - a^(levels-1)| is attained on near-null-space components (measured: 1.24 for 3 levels, 2.34 for 4, 3.5 for 5 at
+    // a = 1.5).  A W-cycle squares the coarse error operator and is not affected.  With pre_cycles = 2 the operator
+    // (I - E^2) A^-1 is in addition indefinite there.
+    bool fagg_region = cfg.coars == AGG && cfg.ncycle == 1 && li.levels >= 2 && std::pow(cfg.effective_over_interp(), static_cast<double>(li.levels) - 1.0) >= 2.0;
+    double rho = -1, bmin = 1, bmax = 1;
     if (cfg.symmetric_smoother()) {
         if (cfg.npre == cfg.npost) {
             double asym = (B - B.transpose()).cwiseAbs().maxCoeff();
@@ -107,8 +113,8 @@ static void prop_cycle(Tape &t, Ctx &c) {
             c.label(bucket(sratio, {0.01, 0.1, 1, 8}, "sym-ratio"));
             if (trace_on()) std::cerr << "TRACE sym n=" << n << " kappa=" << kappa << " ratio=" << sratio << " " << cfg.str() << "\n";
             VF_REQUIRE(sratio <= 64.0, "B not symmetric: max|B-B^T| = " << asym << " = " << sratio << " x (n + kappa2(A)) u max|B|, n=" << n << " kappa2(A)=" << kappa);
-            double bmin, bmax; eig_sym(B, bmin, bmax);
-            VF_REQUIRE(bmin > 0, "B not positive definite: lambda_min(sym B) = " << bmin << " (lambda_max " << bmax << ")");
+            eig_sym(B, bmin, bmax);
+            if (!(fagg_region && cfg.pre_cycles == 2)) VF_REQUIRE(bmin > 0, "B not positive definite: lambda_min(sym B) = " << bmin << " (lambda_max " << bmax << ")");
             double mu_min, mu_max;
             VF_REQUIRE(eig_BA_symmetric(B, Ad, mu_min, mu_max), "Cholesky of A failed");
             rho = std::max(std::abs(1 - mu_min), std::abs(1 - mu_max));
@@ -140,6 +146,7 @@ static void prop_cycle(Tape &t, Ctx &c) {
         if (fagg_region) {
             c.label(rho < 1 ? "F-agg-region:rho<1" : "F-agg-region:rho>=1");
             if (c.known("F-agg")) return;
+            VF_REQUIRE(bmin > 0, "B not positive definite: lambda_min(sym B) = " << bmin << " (lambda_max " << bmax << ")");
         }
         VF_REQUIRE(rho < 1.0 - 1e-10, "no contraction: rho(I - B A) = " << rho << " with " << li.levels << " levels");
     }
